@@ -21,10 +21,11 @@ def unitLabel (u : UInt32) : Nat := u.toNat &&& (2 ^ 31 ||| 0xFF)
 def unitOffset (u : UInt32) : Nat := (u.toNat >>> 10) <<< ((u.toNat &&& 2 ^ 9) >>> 6)
 def unitHasLeaf (u : UInt32) : Bool := (u.toNat >>> 8) &&& 1 == 1
 
-/-- The loop of `prefix` over the key bytes; `posit` is the current trie position. -/
-def prefixGo (m : CharsMap) : (key : Bytes) → (posit : Nat) → (acc : List Nat) → List Nat
-  | [], _, acc => acc.reverse
-  | c :: cs, posit, acc =>
+/-- The loop of `prefix` over the key bytes; `posit` is the current trie position, `i` the number of
+    bytes consumed so far. Collects (key length, value) for every key that is a prefix of the input. -/
+def prefixGo (m : CharsMap) : (key : Bytes) → (posit : Nat) → (i : Nat) → (acc : List (Nat × Nat)) → List (Nat × Nat)
+  | [], _, _, acc => acc.reverse
+  | c :: cs, posit, i, acc =>
     if c == 0 then acc.reverse
     else
       let posit := posit ^^^ c.toNat
@@ -37,44 +38,73 @@ def prefixGo (m : CharsMap) : (key : Bytes) → (posit : Nat) → (acc : List Na
           if unitHasLeaf unit then
             match m.array[posit]? with
             | none => acc.reverse
-            | some leaf => prefixGo m cs posit (unitValue leaf :: acc)
-          else prefixGo m cs posit acc
+            | some leaf => prefixGo m cs posit (i + 1) ((i + 1, unitValue leaf) :: acc)
+          else prefixGo m cs posit (i + 1) acc
 
-/-- `CharsMap::prefix`: values of all keys that are prefixes of `key`, shortest first. -/
-def «prefix» (m : CharsMap) (key : Bytes) : List Nat :=
+/-- `CharsMap::prefix`: (length, value) of all keys that are prefixes of `key`, shortest first. -/
+def «prefix» (m : CharsMap) (key : Bytes) : List (Nat × Nat) :=
   match m.array[0]? with
   | none => []
-  | some unit => prefixGo m key (0 ^^^ unitOffset unit) []
+  | some unit => prefixGo m key (0 ^^^ unitOffset unit) 0 []
 
 /-- Index of the first NUL at or after `start` (or the length). -/
 def scanNul (bs : Bytes) (start : Nat) : Nat :=
   start + ((bs.drop start).takeWhile (· != 0)).length
 
-/-- `CharsMap::transform`: replacement of the first (shortest) matching prefix. -/
-def transform (m : CharsMap) (chunk : Bytes) : Option Bytes :=
+/-- `CharsMap::transform` after the F16 repair: the replacement of the longest key that is a prefix of
+    the chunk, with the key's length; nothing if that length is not a character boundary of the chunk
+    or the value points outside the replacement table. -/
+def transform (m : CharsMap) (chunk : Bytes) : Option (Nat × Bytes) :=
+  match (m.prefix chunk).getLast? with
+  | none => none
+  | some (len, start) =>
+    if !isBoundary chunk len then none
+    else
+      let stop := scanNul m.normalized start
+      if start ≤ stop ∧ stop ≤ m.normalized.length then some (len, slice m.normalized start stop) else none
+
+/-- The `while let Some(c) = rest.chars().next()` loop over one grapheme: replace the longest key at
+    the current position, otherwise keep one character. `fuel` bounds the iterations (each consumes
+    at least one byte). -/
+def normalizeRest (m : CharsMap) : (fuel : Nat) → Bytes → Bytes
+  | 0, _ => []
+  | _, [] => []
+  | fuel + 1, b :: t =>
+    let rest := b :: t
+    match m.transform rest with
+    | some (len, t') => encodeChars (chars t') ++ normalizeRest m fuel (rest.drop len)
+    | none =>
+      let r := decodeOne rest
+      encodeChar (r.1.getD REPLACEMENT) ++ normalizeRest m fuel (rest.drop r.2)
+
+def normalizeGrapheme (m : CharsMap) (g : Bytes) : Bytes := normalizeRest m (g.length + 1) g
+
+/-- `CharsMap::normalize` given the grapheme boundaries of the text (external: bstr segmentation). -/
+def normalize (m : CharsMap) (text : Bytes) (graphemes : List (Nat × Nat)) : Bytes :=
+  graphemes.flatMap fun (s, e) => normalizeGrapheme m (slice text s e)
+
+/-- `transform`/`normalize` before the F16 repair: the *shortest* prefix key replaced the whole
+    grapheme (when shorter than `limit` bytes), otherwise characters were looked up one by one. -/
+def transformOld (m : CharsMap) (chunk : Bytes) : Option Bytes :=
   match m.prefix chunk with
   | [] => none
-  | start :: _ =>
+  | (_, start) :: _ =>
     let stop := scanNul m.normalized start
     if start ≤ stop ∧ stop ≤ m.normalized.length then some (slice m.normalized start stop) else none
 
-/-- Per-character part of `normalize` for one grapheme. -/
-def normalizeChars (m : CharsMap) : List (Nat × Nat × Char) → Bytes → Bytes
+def normalizeCharsOld (m : CharsMap) : List (Nat × Nat × Char) → Bytes → Bytes
   | [], _ => []
   | (s, _, c) :: rest, g =>
-    let part := slice g s (s + c.utf8Size)
-    (match m.transform part with
+    (match transformOld m (slice g s (s + c.utf8Size)) with
       | some t => encodeChars (chars t)
-      | none => encodeChar c) ++ normalizeChars m rest g
+      | none => encodeChar c) ++ normalizeCharsOld m rest g
 
-def normalizeGrapheme (m : CharsMap) (limit : Nat) (g : Bytes) : Bytes :=
-  match (if g.length < limit then m.transform g else none) with
-  | some t => encodeChars (chars t)
-  | none => normalizeChars m (charIndices g) g
-
-/-- `CharsMap::normalize` given the grapheme boundaries of the text (external: bstr segmentation). -/
-def normalize (m : CharsMap) (limit : Nat) (text : Bytes) (graphemes : List (Nat × Nat)) : Bytes :=
-  graphemes.flatMap fun (s, e) => normalizeGrapheme m limit (slice text s e)
+def normalizeOld (m : CharsMap) (limit : Nat) (text : Bytes) (graphemes : List (Nat × Nat)) : Bytes :=
+  graphemes.flatMap fun (s, e) =>
+    let g := slice text s e
+    match (if g.length < limit then transformOld m g else none) with
+    | some t => encodeChars (chars t)
+    | none => normalizeCharsOld m (charIndices g) g
 
 /-- Little-endian u32 from four bytes. -/
 def le32 (a b c d : UInt8) : UInt32 :=
